@@ -179,7 +179,7 @@ impl Property for C16 {
             let (k, sel) = a.calls[i % a.calls.len()];
             match k {
                 0 => script.push(Call::Flush),
-                1 => script.push(Call::GetOutput),
+                1 => script.push(if sel % 2 == 0 { Call::GetOutput } else { Call::GetOutputMut }),
                 2 => script.push(Call::WriteOnce(0)),
                 3 | 4 => {
                     let p = 1 + (sel as usize % 7);
@@ -202,7 +202,7 @@ impl Property for C16 {
         for (k, sel) in &a.tail_calls {
             script.push(match k % 4 {
                 0 => Call::Flush,
-                1 => Call::GetOutput,
+                1 => if sel % 2 == 0 { Call::GetOutput } else { Call::GetOutputMut },
                 _ => Call::WriteOnce(1 + (*sel as usize % 30)),
             });
         }
